@@ -64,7 +64,18 @@ func init() {
 		return nil
 	}
 	vf["verifCover"] = func(fr *frame, a []value) value {
-		E.covers[mustConcStr(a[0])] = true
+		l := mustConcStr(a[0])
+		E.covers[l] = true
+		if l == "end" && E.Witness == nil {
+			// reachability witness: a model of the first path that reaches the end of the harness
+			if m := E.pathModel(); m != nil {
+				w := map[string]uint64{}
+				for i, pv := range E.pathVars {
+					w[E.varOrder[i]] = m[pv.Name]
+				}
+				E.Witness = w
+			}
+		}
 		return nil
 	}
 	vf["verifFail"] = func(fr *frame, a []value) value {
